@@ -537,6 +537,14 @@ def witnesses():
     B = G.Builder(); lit, ref, bind, inh = B.lit, B.ref, B.bind, B.inh
     yield "mixed_cycle_let", B.let([bind("a", ref("b")), B.inhf(["b"], ref("s")),
                                     bind("s", B.set([bind("b", ref("a"))]))], B.set([bind("x", ref("a"))])), ("x",)
+    # `quoted_key_on_literal`: since f0e98da `AttributeSet.__getitem__` compares what key and name token
+    # denote (`_same_attr_name`); the model's `findBindKey` must follow (spelled lookup says KeyError)
+    B = G.Builder(); lit, ref, bind, inh = B.lit, B.ref, B.bind, B.inh
+    yield "quoted_key_bare_binding", B.set([bind("a", lit())]), ('"a"',)
+    B = G.Builder(); lit, ref, bind, inh = B.lit, B.ref, B.bind, B.inh
+    yield "bare_key_quoted_binding", B.set([bind('"a"', lit())]), ("a",)
+    B = G.Builder(); lit, ref, bind, inh = B.lit, B.ref, B.bind, B.inh
+    yield "quoted_key_other_name", B.set([bind("a", lit())]), ('"b"',)
     B = G.Builder(); lit, ref, bind, inh = B.lit, B.ref, B.bind, B.inh
     shadow = B.let([bind("a", lit())], B.set([bind("k", B.set([
         bind("a", lit()),
@@ -593,7 +601,8 @@ def run(ctx: fw.Ctx):
         "resolve_partial covers: let layers (around anything but a bare reference), rec and plain attribute sets, "
         "inherit clauses, references, literals, any nesting and shadowing, paths of keys; outside it (with, "
         "inherit-from, lambdas/calls/parentheses on the route, let layers on an identifier, .value steps, quoted "
-        "names) the property is decided per input by the spec oracle on the real code, and the model is tied by "
+        "names, quoted keys: the code reads a key as a name token, the spec as the name written in the set) the "
+        "property is decided per input by the spec oracle on the real code, and the model is tied by "
         "correspondence only; distribution.in_fragment_of_resolve_partial counts this run's inputs inside it"
     )
     ctx.extra["uncovered"] = {}
